@@ -262,7 +262,11 @@ def make_backend_class():
             pass
 
         def busy_trial_ids(self):
-            return [(t, _status_const(w["status"])) for t, w in sorted(self.workers.items()) if w["status"] in ACTIVE]
+            # like LocalBackend, which re-reads the status of its jobs: a fresh look at every active worker
+            self._all_trial_results(sorted(self.workers))
+            busy = [(t, _status_const(w["status"])) for t, w in sorted(self.workers.items()) if w["status"] in ACTIVE]
+            self._call(("b_busy", [t for t, _ in busy]))
+            return busy
 
         def stdout(self, trial_id):
             self.last_stdout_trial = trial_id
@@ -583,7 +587,8 @@ def run_tuner(params, script, scheduler_factory=None, hard_limit=400):
                           n_workers=params["n_workers"], sleep_time=0, max_failures=params["max_failures"],
                           tuner_name="verif-run", asynchronous_scheduling=params["async"],
                           wait_trial_completion_when_stopping=params["wait"], callbacks=[recorder],
-                          suffix_tuner_name=False, save_tuner=False)
+                          suffix_tuner_name=False, save_tuner=False,
+                          start_jobs_without_delay=params.get("sjwd", True))
             try:
                 tuner.run()
             except HarnessAbort:
@@ -691,6 +696,7 @@ def coq_terms():
         if k == "cb_resume": return "ECbResume %s" % n(ev[1])
         if k == "stop_cond": return "EStopCond %s %s" % (blit(ev[1]), blit(ev[2]))
         if k == "b_stop_all": return "EBStopAll"
+        if k == "b_busy": return "EBBusy %s" % natl(ev[1])
         raise ValueError("unknown event %r" % (ev,))
 
     def trace(tr):
